@@ -24,7 +24,10 @@ RULE = ("E1 with the interpreter's set-iteration order owned by the explorer "
         "separate interpreter processes under K real PYTHONHASHSEED values "
         "must reproduce an enumerated output.  Real DelayModel instances "
         "that draw (3-4 distributions/degrees/seeds): three runs from fresh "
-        "objects in one process must be identical.  non-trivial = case with >=2 "
+        "objects in one process must be identical; and the FULL output of a "
+        "case run right after other simulations of the same process (a "
+        "complete run on other machine speeds, an abandoned run, thorough: "
+        "two abandoned runs) must equal its output alone.  non-trivial = case with >=2 "
         "simultaneously ready tasks")
 
 CHILD = os.path.join(os.path.dirname(os.path.dirname(
@@ -197,6 +200,21 @@ def full_out(case, hm):
     return json.loads(json.dumps(o, default=repr))
 
 
+def histories(case, tier="quick"):
+    """Earlier simulations of the same process after which the case must
+    still give the output of a fresh process."""
+    plain = {k: v for k, v in case.items() if k not in ("hashmap", "before")}
+    cfg = plain["cfg"]
+    faster = dict(plain, cfg=dict(cfg, machines=[[c + 1, b + 1] for c, b in
+                                                 cfg["machines"]]))
+    hs = [("after-a-run-on-other-machine-speeds", [faster]),
+          ("after-an-abandoned-run", [dict(plain, runtime=2)])]
+    if tier == "thorough":
+        hs.append(("after-two-abandoned-runs",
+                   [dict(plain, runtime=1), dict(faster, runtime=3)]))
+    return hs
+
+
 def explain(a, b):
     """first difference between two light signatures"""
     names = ("outcome", "exception", "end_time", "trajectory", "task-table",
@@ -263,6 +281,14 @@ def run(rep, tier, seed):
             vs.append(("C10.same-across-hash-orders",
                        "tables-depend-on-set-order:%s" % case["alg"]["kind"],
                        {"keys": [k for k in f1 if f1.get(k) != f3.get(k)]}))
+        for label, before in histories(case, tier):
+            f4 = full_out(dict(case, before=before), ident)
+            nruns += 1 + len(before)
+            if f4 != f1:
+                vs.append(("C10.same-in-one-process",
+                           "run-differs-%s:%s" % (label, case["alg"]["kind"]),
+                           {"keys": [k for k in f1
+                                     if f1.get(k) != f4.get(k)]}))
         return vs, nruns, nev, len(sigs), f1
     res, _ = engine.parallel_map(work, cs)
     full_by_case = []
@@ -434,4 +460,9 @@ def replay(payload):
         vs.append(("C10.same-across-hash-orders",
                    "tables-depend-on-set-order:%s" % case["alg"]["kind"],
                    None))
+    for label, before in histories(case, "thorough"):
+        if full_out(dict(case, before=before), ident) != f1:
+            vs.append(("C10.same-in-one-process",
+                       "run-differs-%s:%s" % (label, case["alg"]["kind"]),
+                       None))
     return [{"clause": a, "cause": b, "detail": c} for a, b, c in vs]
